@@ -6,7 +6,7 @@
    interleaving), any number of simulators, tiers, steps. *)
 From Coq Require Import ZArith List Bool Arith.
 Import ListNotations.
-From MV Require Import Time.Spec Sched.Timing Sched.Inv Sched.Init Sched.Wle Sched.Main Sched.Guards Sched.Final.
+From MV Require Import Time.Spec Sched.Timing Sched.Inv Sched.Init Sched.Wle Sched.Main Sched.Guards Sched.Final Static.Groups Static.Connect Static.Build Sched.Plane Sched.Link Sched.Certify.
 
 (* once a consumer j has begun a step at t, no simulator k feeding it (over a connection with delay d, the
    minimum over all connections k -> j) is ever stepped at a time u whose delayed output time is at or before t *)
@@ -34,3 +34,18 @@ Theorem C01_input_guard_holds : forall st, static_ok st -> forall s i t m s',
   forall k d, In (k,d) (indel st i) -> tlt t (act (prog (s k)) d) = true.
 Proof. exact C01_input_guard. Qed.
 Print Assumptions C01_input_guard_holds.
+
+(* the premise static_ok is decidable per scenario: it holds for the static record that Sched.Link.prepare builds from
+   the scenario whenever the extracted checker accepts the tables (the checks run it on every generated scenario) *)
+Theorem C01_premise_certified : forall fuel sc st dt t anc,
+  prepare fuel sc = Prepared st dt t anc -> check_static sc t anc = true -> static_ok st.
+Proof. exact prepared_static_ok. Qed.
+Print Assumptions C01_premise_certified.
+
+(* non-vacuity: A (time-based) -> B (event-based, trigger input), one group level; prepare succeeds and the tables are certified *)
+Example C01_nonvacuous :
+  let f := mkF true true false true true 0 false false true in
+  let sc := mkScen [None] (fun _ => 0%nat) (fun i => if Nat.eqb i 0 then TimeBased else EventBased) 2
+                   [mkConn 0 1 2 1 f false 0] [] 5 100 true true in
+  match prepare 100 sc with Prepared st dt t anc => check_static sc t anc | _ => false end = true.
+Proof. vm_compute. reflexivity. Qed.
